@@ -1,4 +1,4 @@
-import CardVerif.Model.Rank5
+import CardModel.Model.Rank5
 /-!
 # Brute-force evaluators, showdown tiers
 
